@@ -148,7 +148,6 @@ Qed.
 (* ---- D. wait-for-result and context errors ------------------------------------------------------------ *)
 Definition wfrinv (s : st) : Prop :=
   (forall p e, In (p, e) (results s) -> In (p, e) (fin s)) /\
-  (forall id e, lock s = BSend (PendRes id e) -> In (id, e) (fin s)) /\
   (forall p e, pget p (prods s) = Some (PRet (RRes e)) -> In (p, e) (fin s)) /\
   (forall p, pget p (prods s) = Some (PRet RCtx) -> In p (cancelled s)) /\
   (forall p sz, pget p (prods s) = Some (PLeftCtx sz) -> In p (cancelled s)).
@@ -166,29 +165,19 @@ Ltac pget_split H :=
 Lemma wfrinv_step c s l s' z : wfrinv s -> step c s l = Some (s', z) -> wfrinv s'.
 Proof.
   intros I H. revert I. unfold wfrinv. revert H.
-  step_cases; intros (D1 & D2 & D3 & D4 & D5);
-  (split; [|split; [|split; [|split]]]);
+  step_cases; intros (D1 & D3 & D4 & D5);
+  (split; [|split; [|split]]);
   try assumption;
   try (intros; discriminate);
   try (intros q e0 Hq; try pget_split Hq; try (inversion Hq; subst); try discriminate;
        try (apply in_or_app; left); eauto; fail);
   try (intros q Hq; try pget_split Hq; try (inversion Hq; subst); try discriminate;
        try (right); eauto using memb_In; fail);
-  try (intros id0 e0 E0;
-       first [ congruence
-             | inversion E0; subst; apply in_or_app; right; left; reflexivity
-             | apply in_or_app; left; eapply D2; congruence
-             | eapply D2; congruence ]; fail);
   try (intros q e0 Hq; apply in_app_or in Hq; destruct Hq as [Hq|[Hq|[]]];
        [ first [apply in_or_app; left; apply D1; exact Hq | apply D1; exact Hq]
-       | inversion Hq; subst; first [apply in_or_app; right; left; reflexivity | eapply D2; eassumption] ]; fail).
-  - intros q e0 Hq. apply in_app_or in Hq. destruct Hq as [Hq|[Hq|[]]]; [apply D1; exact Hq|].
-    inversion Hq; subst. apply D2. reflexivity.
-  - intros q sz0 Hq. pget_split Hq; [apply memb_In; assumption|eapply D5; eassumption].
-  - intros q e0 Hq. apply D1. eapply In_remove_id. exact Hq.
-  - intros q e0 Hq. pget_split Hq; [|eapply D3; eassumption].
-    inversion Hq; subst. apply D1. apply find_id_In. assumption.
-  - intros q e0 Hq. apply D1. eapply In_remove_id. exact Hq.
-  - intros q e0 Hq. pget_split Hq; [|eapply D3; eassumption].
-    inversion Hq; subst. apply D1. apply find_id_In. assumption.
+       | inversion Hq; subst; apply in_or_app; right; left; reflexivity ]; fail);
+  try (intros q sz0 Hq; pget_split Hq; [apply memb_In; assumption|eapply D5; eassumption]);
+  try (intros q e0 Hq; apply D1; eapply In_remove_id; exact Hq);
+  try (intros q e0 Hq; pget_split Hq; [|eapply D3; eassumption];
+       inversion Hq; subst; apply D1; apply find_id_In; assumption).
 Qed.
